@@ -268,8 +268,8 @@ impl Prop for C03 {
         }
     }
     fn gen(&self, rng: &mut Rng, tier: Tier, _i: usize, stats: &mut Stats) -> String {
-        let u = universe(rng);
-        let db = gen_db(rng, &u);
+        let mut u = universe(rng);
+        let db = gen_db(rng, &mut u);
         let nvars = rng.range(2, 4) as u32;
         let n = rng.range(1, if tier == Tier::Quick { 8 } else { 40 });
         let mut ops = Vec::new();
